@@ -279,3 +279,4 @@ PLANS["C09"].explanation = ("proved: Equivalence.convert + every _convert branch
                             "dimension, frames for 7 equivalences in copy / in-place / quantity / integer forms) through the "
                             "__array_ufunc__ contracts of the configurations used; round trips and compositions are lemmas; "
                             "bounded: lorentz / effective_temperature values, entry points, float residuals")
+PLANS["C02"].proofs += [("contracts.parsing", "UnitDataEnvelope")]      # C02.P2: Pow / Mul combine their factors
